@@ -234,7 +234,7 @@ def ensureVerificationAlgorithm (p : GoMap) (alg : Int) (external : Option Bytes
 
 /-- `ProtectedHeader.Critical()` (headers.go:203): absent → nil; else validated list -/
 def critical (h : GoMap) : Out (Option (List GoVal)) :=
-  match h.lookup (lbl 2) with
+  match lookupLabel h (lbl 2) with
   | none => .ok none
   | some v =>
     if ensureCritical v h then
